@@ -1,8 +1,8 @@
 (* Driver for the extracted cache model. One history per line:
      <contents> TAB <ops>
    contents = `;`-separated  cid:size:lang=T.C.M.B.I/lang=I/...      (I alone = IgnoredFile)
-   ops      = `,`-separated  W:stem.ext:cid:t | D:stem.ext | R:stem.ext:stem.ext | L:ext=lang/ext=lang
-                             | C:g | C:v<N> | C:h | C:r | C:f:stem.ext:T.C.M.B.I | X:<cmd>:<excluded paths /-separated or ->:t
+   ops      = `,`-separated  W:stem.ext:cid:t | D:stem.ext | R:stem.ext:stem.ext | P:stem.ext:stem.ext (copy / link) | L:ext=lang/ext=lang
+                             | C:g | C:v<N> | C:h | C:r | C:f:stem.ext:T.C.M.B.I | C:x<N>:stem.ext:T.C.M.B.I (foreign version N with other statistics) | X:<cmd>:<excluded paths /-separated or ->:t
    Output: one segment per Run, ` | `-separated:
      <cached out> || <uncached out> || <cache file after the run>
    followed by ` ## RW=b RR=b FORGE=b MONO=b TRANSP=b`. *)
@@ -56,11 +56,13 @@ let () =
           | ["W"; p; c; t] -> Write (path p, nos c, nos t)
           | ["D"; p] -> Delete (path p)
           | ["R"; p; q] -> Rename (path p, path q)
+          | ["P"; p; q] -> Copy (path p, path q)
           | ["L"; l] -> SetLanguages (List.map (fun x -> match String.split_on_char '=' x with [e; g] -> (nos e, nos g) | _ -> failwith "lang") (split '/' l))
           | ["C"; "g"] -> Corrupt KGarbage
           | ["C"; "h"] -> Corrupt KBadHash
           | ["C"; "r"] -> Corrupt KRemove
           | ["C"; "f"; p; st] -> Corrupt (KForge (path p, stats st))
+          | ["C"; x; p; st] -> Corrupt (KForeign (nos (String.sub x 1 (String.length x - 1)), path p, stats st))
           | ["C"; v] -> Corrupt (KVersion (nos (String.sub v 1 (String.length v - 1))))
           | ["X"; k; ex; t] ->
             let k = match k with "check" -> Check | "summary" -> StatsSummary | "files" -> StatsFiles | _ -> Snapshot in
